@@ -1,6 +1,7 @@
 package checks
 
 import (
+	"github.com/DrmagicE/gmqtt/config"
 	"fmt"
 	"runtime"
 	"sort"
@@ -28,6 +29,20 @@ func minB(a, b byte) byte {
 }
 
 // harnessErr marks a failure of the harness itself (not of the product).
+// withBackend switches cfg to the redis persistence backend (on a fresh harness RESP server) when redis is set.
+// The returned cleanup must be deferred.
+func withBackend(cfg config.Config, redis bool, c *ev.Case) (config.Config, func(), *ev.Violation) {
+	if !redis {
+		return cfg, func() {}, nil
+	}
+	rs, cleanup, err := fixture.StartRedis()
+	if err != nil {
+		return cfg, func() {}, harnessErr("miniredis: %v", err)
+	}
+	c.Label("backend_redis")
+	return fixture.WithRedis(cfg, rs.Addr()), cleanup, nil
+}
+
 func harnessErr(format string, a ...any) *ev.Violation {
 	return &ev.Violation{Assertion: "HARNESS", Msg: "@@HARNESS-ERROR " + fmt.Sprintf(format, a...)}
 }
